@@ -84,19 +84,24 @@ class Zone:
                 adj[x].append((y, c))
             self._adj = adj
         best = {a: 0}
-        frontier = [a]
+        frontier = {a}
         rounds = 0
+        nodes = len(adj) + 2
         while frontier and rounds < limit:
-            nxt = []
+            nxt = set()
             for x in frontier:
                 dx = best[x]
                 for y, c in adj.get(x, ()):
                     nd = dx + c
                     if nd < best.get(y, INF):
                         best[y] = nd
-                        nxt.append(y)
+                        nxt.add(y)
             frontier = nxt
             rounds += 1
+            if rounds > nodes:
+                # still relaxing after |V| rounds: negative cycle, the constraint set is unsatisfiable
+                self.bottom = True
+                break
         self._dc[a] = best
         return best.get(b, INF)
 
@@ -341,6 +346,8 @@ class Interp:
         self.call_sites = []    # (block, callee key, state) for lifted preconditions
         self.assume = assume or []   # list of (a, b, c) facts assumed at entry (lifted to callers)
         self.unmodelled = set()
+        self.track_casts = False
+        self.field_bounds = {}      # adt name -> (field index, max value): obligations at aggregate construction
 
     # ------------------------------------------------------------------ terms
     def lty(self, l):
@@ -729,6 +736,9 @@ class Interp:
             self.kill_place(st, p)
             if not p.get("p"):
                 st.refs[p["l"]] = tgtp
+            ma = re.fullmatch(r"\[.*; (\d+)(_usize)?\]", self.place_ty(rv["p"]) or "")
+            if ma:
+                st.z.set_range(_len_term(tgtp), int(ma.group(1)), int(ma.group(1)))    # arrays have their type's length
             return
         if r == "cast":
             o = rv["o"]
@@ -744,6 +754,18 @@ class Interp:
             st.lin_snapshot, st.vals_snapshot = st_lin, st_vals
             if ref and not p.get("p"):
                 st.refs[p["l"]] = ref     # pointer casts / unsizing keep the referent
+                ma = re.fullmatch(r"&(mut )?\[.*; (\d+)(_usize)?\]", rv.get("from") or "")
+                if ma:
+                    st.z.set_range(_len_term(ref), int(ma.group(2)), int(ma.group(2)))
+            if to and frm and record and self.track_casts:
+                flo, fhi = TYPE_RANGE[frm]
+                tlo_, thi_ = TYPE_RANGE[to]
+                if flo < tlo_ or fhi > thi_:      # narrowing (or sign-changing) cast
+                    ok = lo >= tlo_ and hi <= thi_
+                    ob = Obligation(self.fv.name, b, "cast:%s->%s" % (frm, to), self._cast_desc(s, o), s.get("ln", 0), "")
+                    ob.status = "discharged" if ok else "open"
+                    ob.by = "value in [%s, %s]" % (_fmt(lo), _fmt(hi))
+                    self.obls[(b, "s%d" % si)] = ob
             if to:
                 tlo, thi = TYPE_RANGE[to]
                 if frm and lo >= tlo and hi <= thi:
@@ -806,6 +828,13 @@ class Interp:
                     for i_, v_ in enumerate(adt["variants"]):
                         if v_["n"] == rv["v"]:
                             vi = i_
+                fb = self.field_bounds.get(adt["name"]) if (adt and record) else None
+                if fb and fb[0] < len(rv["fields"]):
+                    flo, fhi = self.range_of(st, rv["fields"][fb[0]])
+                    ob = Obligation(self.fv.name, b, "field-bound", "%s.%s <= %d" % (adt["name"].split("::")[-1], adt["variants"][0]["fields"][fb[0]]["n"], fb[1]), s.get("ln", 0), "")
+                    ob.status = "discharged" if fhi <= fb[1] else "open"
+                    ob.by = "value in [%s, %s]" % (_fmt(flo), _fmt(fhi))
+                    self.obls[(b, "s%d" % si)] = ob
                 for i, fo in enumerate(rv["fields"]):
                     src = self.term_of_operand(st, fo)
                     ft = "%s.f%d" % (t, i) if (adt and adt["kind"] == "struct") else "%s.v%d.f%d" % (t, vi, i)
@@ -817,6 +846,8 @@ class Interp:
                             st.z.eq(ft, src[0], 0)
                             if src[0] in st.vals:
                                 st.vals[ft] = st.vals[src[0]]
+                            if src[0] in st.lin:
+                                st.lin[ft] = st.lin[src[0]]
                     fp = fo.get("c") or fo.get("m")
                     if fp is not None and not fp.get("p"):
                         self.copy_subterms(st, self.canon(st, fp), ft)
@@ -840,6 +871,13 @@ class Interp:
                 st.z.set_range(_len_term(t), int(m.group(1)), int(m.group(1)))
             return
         self.assign_fresh(st, p)
+
+    def _cast_desc(self, s, o):
+        from .cfg import Renderer, show
+        try:
+            return show(Renderer(self.fv, depth=6).operand(o, 6), 70)
+        except Exception:
+            return "?"
 
     def copy_subterms(self, st, src, dst):
         if src == dst:
@@ -919,6 +957,14 @@ class Interp:
                     if d2 != INF:
                         lo = max(lo, -d2)
         elif base == "Mul":
+            # scaling by a small constant keeps a linear form: (i + 1) * 4 = i+i+i+i + 4
+            for (tx, lx, ty_) in ((ta, lina, tc), (tc, linc, ta)):
+                if tx and ty_ and ty_[0] == "0" and isinstance(ty_[1], int) and 1 <= ty_[1] <= 8 and tx[0] != "0":
+                    fx = lx or ((self.rep(st, tx[0]),), 0)
+                    vs_ = tuple(sorted(fx[0] * ty_[1]))
+                    if len(vs_) <= 8 and not any(v.startswith("Σ(") for v in vs_):
+                        st.lin[res] = (vs_, fx[1] * ty_[1])
+                    break
             cands = [x * y for x in ra for y in rc if abs(x) != INF and abs(y) != INF]
             if len(cands) == 4:
                 lo, hi = min(cands), max(cands)
@@ -1050,6 +1096,12 @@ class Interp:
                             st.z.set_range(term, 1, 1)
                         elif ex == [1]:
                             st.z.set_range(term, 0, 0)
+                    elif lo != -INF and hi != INF and hi - lo <= 256:
+                        left = [x for x in range(int(lo), int(hi) + 1) if x not in set(ex)]
+                        if not left:
+                            st.z.bottom = True
+                            return
+                        st.z.set_range(term, left[0], left[-1])
                     else:
                         while ex and ex[0] == lo:
                             lo += 1
@@ -1398,8 +1450,10 @@ def _fmt(x):
 
 
 # ---------------------------------------------------------------------------------------------- driver
-def analyse(prog, key, profile="debug"):
+def analyse(prog, key, profile="debug", track_casts=False, field_bounds=None):
     it = Interp(prog, key, profile)
+    it.track_casts = track_casts
+    it.field_bounds = field_bounds or {}
     it.run()
     return it
 
@@ -1431,10 +1485,13 @@ def summarise(it):
     f = it.f
     params = range(1, f["argc"] + 1)
     first = True
+    rtags = set()
     for st in (it.ret_defs or it.ret_states):
         if st.z.bottom:
             continue
         tag = st.tags.get("L0")
+        if rtags is not None:
+            rtags = None if tag is None else (rtags | set(tag))
         rs = {}
         for t in st.z.terms():
             if t == "L0" or t.startswith("L0."):
@@ -1469,12 +1526,14 @@ def summarise(it):
                 post = facts if post is None else {(a, b, max(c, dict(((x, y), z) for x, y, z in facts).get((a, b), INF))) for a, b, c in post if (a, b) in {(x, y) for x, y, z in facts}}
     out = {"ranges": {k: v for k, v in ranges.items() if not (v[0] == -INF and v[1] == INF and not v[2])}}
     out["consuming"] = is_consuming(it)
+    if rtags:
+        out["tags"] = sorted(rtags)
     if post:
         out["post_ok"] = [x for x in post if x[2] != INF]
     return out
 
 
-def check_panic_freedom(prog, rule, roots, prop, scope_crates=("rustybgp_packet",), profile="debug", extra_skip=None):
+def check_panic_freedom(prog, rule, roots, prop, scope_crates=("rustybgp_packet",), profile="debug", extra_skip=None, casts_in=None, cast_rule=None, cast_filter=None, field_bounds=None):
     """Run the interpreter over every local function reachable from `roots` and turn open obligations into
     rule violations unless listed (with still-valid reasons) in specs/reviewed_sites.json."""
     import json
@@ -1521,10 +1580,13 @@ def check_panic_freedom(prog, rule, roots, prop, scope_crates=("rustybgp_packet"
         if extra_skip and extra_skip(k):
             continue
         try:
-            it = cache.get((k, profile, "final"))
+            want_casts = bool(casts_in and casts_in(k))
+            it = cache.get((k, profile, "final", want_casts))
             if it is None:
-                it = analyse(prog, k, profile)
-                cache[(k, profile, "final")] = it
+                it = analyse(prog, k, profile, track_casts=want_casts, field_bounds=field_bounds if want_casts else None)
+                cache[(k, profile, "final", want_casts)] = it
+                if not want_casts:
+                    cache[(k, profile, "final")] = it
         except Exception as ex:  # analysis crash = fail closed
             rule.unanalysable("abstract interpreter crashed on %s: %r" % (prog.name(k), ex))
             continue
@@ -1532,13 +1594,23 @@ def check_panic_freedom(prog, rule, roots, prop, scope_crates=("rustybgp_packet"
         if not it.converged:
             rule.unanalysable("fixpoint not reached for %s" % prog.name(k), it.fv.loc())
         counts = {}
-        for (b, idx), ob in sorted(it.obls.items()):
+        for (b, idx), ob in sorted(it.obls.items(), key=lambda kv: (kv[0][0], str(kv[0][1]))):
+            if ob.kind.startswith("cast:") and cast_filter is not None and not cast_filter(ob):
+                continue
             base = "%s:%s" % (ob.kind, re.sub(r"\s+", " ", ob.desc)[:70])
             counts[base] = counts.get(base, 0) + 1
             site = base if counts[base] == 1 else "%s#%d" % (base, counts[base])
             where = "%s:%d" % (it.f["file"], ob.line)
+            is_inv = ob.kind.startswith("cast:") or ob.kind == "field-bound"
+            tgt_rule = cast_rule if (is_inv and cast_rule is not None) else rule
             if ob.status == "discharged":
-                rule.ok("%s %s" % (short(prog.name(k)), site), ob.by)
+                tgt_rule.ok("%s %s" % (short(prog.name(k)), site), ob.by)
+                continue
+            if is_inv and (prog.name(k), site) not in reviewed:
+                if ob.kind == "field-bound":
+                    tgt_rule.fail(prog.name(k), site, "a value built from API input can violate %s (the wire decoder enforces it): %s" % (ob.desc, ob.by), where)
+                else:
+                    tgt_rule.fail(prog.name(k), site, "narrowing cast %s of %s can truncate: %s" % (ob.kind[5:], ob.desc, ob.by), where)
                 continue
             rk = (prog.name(k), site)
             if rk in reviewed:
@@ -1550,6 +1622,21 @@ def check_panic_freedom(prog, rule, roots, prop, scope_crates=("rustybgp_packet"
                     it._brs = _brs(it.fv)
                 atoms = [_atom(g, l) for g, l, h in _fg(it.fv, b, it._brs)]
                 miss = [g for g in reviewed[rk].get("guards", []) if not any(re.search(g, a) for a in atoms)]
+                pg = reviewed[rk].get("parent_guards")
+                if pg:
+                    # the justification lives where the closure is created: guards dominating that statement in the parent
+                    patoms = []
+                    par = prog.ix[k].get("parent")
+                    if par and par in prog.ix:
+                        from .util import view as _view
+                        pv = _view(prog, par)
+                        pbrs = _brs(pv)
+                        for pb in sorted(pv.live):
+                            for s_ in pv.blocks[pb]["s"]:
+                                rv_ = s_.get("rv")
+                                if rv_ and rv_.get("r") == "agg" and rv_.get("k") in ("closure", "coroutine") and rv_.get("def") == k:
+                                    patoms += [_atom(g, l) for g, l, h in _fg(pv, pb, pbrs)]
+                    miss += [g for g in pg if not any(re.search(g, a) for a in patoms)]
                 if not miss:
                     rule.ok("%s %s" % (short(prog.name(k)), site), "reviewed: " + reviewed[rk]["reason"])
                     continue
